@@ -174,6 +174,8 @@ struct TcpNameserver {
     tcp: Option<tokio::net::TcpStream>,
     tcp_last_send_activity: Instant,
     tcp_last_recv_activity: Instant,
+    /* Octets received on the TCP connection that do not yet make up a whole reply. */
+    tcp_inbuf: Vec<u8>,
     qid2reply: std::collections::HashMap<u16, Responder<super::dnspkt::DNSPkt>>,
 }
 
@@ -185,6 +187,7 @@ impl TcpNameserver {
             tcp: None,
             tcp_last_send_activity: Instant::now(),
             tcp_last_recv_activity: Instant::now(),
+            tcp_inbuf: vec![],
             qid2reply: Default::default(),
         });
 
@@ -271,20 +274,33 @@ impl TcpNameserver {
     async fn read_reply(&mut self) -> Result<Vec<u8>, Error> {
         if let Some(ref mut tcp_sock) = self.tcp {
             use tokio::io::AsyncReadExt as _;
-            let mut lbuf = [0u8; 2];
-            tcp_sock
-                .read_exact(&mut lbuf)
-                .await
-                .map_err(Error::FailedToRecv)?;
-            let l = u16::from_be_bytes(lbuf);
-            let mut msg_buf = vec![0u8; l as usize];
-            log::trace!("Reading {} bytes from TCP socket", l);
-            tcp_sock
-                .read_exact(&mut msg_buf[..])
-                .await
-                .map_err(Error::FailedToRecv)?;
-            self.tcp_last_recv_activity = Instant::now();
-            Ok(msg_buf)
+            /* run() drops this future whenever another branch of its select! completes first (a new
+             * query to send, say), so it must not hold anything it has read: octets are collected in
+             * self.tcp_inbuf -- read_buf() reads nothing if it is cancelled -- and a reply is only taken
+             * out once all of it has arrived.
+             */
+            loop {
+                if self.tcp_inbuf.len() >= 2 {
+                    let l = u16::from_be_bytes([self.tcp_inbuf[0], self.tcp_inbuf[1]]) as usize;
+                    if self.tcp_inbuf.len() >= 2 + l {
+                        let msg_buf = self.tcp_inbuf[2..2 + l].to_vec();
+                        self.tcp_inbuf.drain(..2 + l);
+                        log::trace!("Read {} bytes from TCP socket", l);
+                        self.tcp_last_recv_activity = Instant::now();
+                        return Ok(msg_buf);
+                    }
+                }
+                if tcp_sock
+                    .read_buf(&mut self.tcp_inbuf)
+                    .await
+                    .map_err(Error::FailedToRecv)?
+                    == 0
+                {
+                    return Err(Error::FailedToRecv(
+                        std::io::ErrorKind::UnexpectedEof.into(),
+                    ));
+                }
+            }
         } else {
             panic!("Read from non existant tcp socket");
         }
@@ -304,6 +320,7 @@ impl TcpNameserver {
 
     fn tcp_teardown(&mut self, err: Error) {
         self.tcp = None;
+        self.tcp_inbuf.clear();
         log::trace!("Tearing down {} TCP channel: {}", self.addr, err);
         for (_qid, chan) in self.qid2reply.drain() {
             chan.send(Err(Error::TcpConnection(format!(
